@@ -39,6 +39,9 @@ def case_st():
         "tls": st.sampled_from(["1.3", "1.2"]),
         "dbfault": st.sampled_from([None, None, None, 1, 2, 3, 4, 5, 6]),
         "host": st.sampled_from(HOSTS),
+        # letter case of the host in the URL the caller types / the redirect names (host names are case-insensitive:
+        # the pin made under one spelling holds for every other)
+        "urlcase": st.sampled_from(["same", "same", "upper", "title"]),
         # the client object is used inside `async with`, after an earlier `async with` block has ended, or plainly
         "ctx": st.sampled_from(["plain", "plain", "inside", "after"]),
         # the TLS context: the client's own, or one supplied by the caller (same settings, built with the library's helper)
@@ -61,6 +64,8 @@ def enum_all(tier):
                                        "ctx": "after"}
                                 yield {"state": s, "op": op, "size": size, "peer": peer, "redirect": redirect, "tls": tls, "dbfault": None,
                                        "sslctx": "supplied"}
+                                yield {"state": s, "op": op, "size": size, "peer": peer, "redirect": redirect, "tls": tls, "dbfault": None,
+                                       "urlcase": "upper"}
                                 for h in HOSTS[2:]:
                                     yield {"state": s, "op": op, "size": size, "peer": peer, "redirect": redirect, "tls": tls,
                                            "dbfault": None, "host": h}
@@ -93,6 +98,7 @@ def run_case(case: dict):
                  "unparsable": "hostile-bool", "unparsable-pinned": "hostile-v4", "changed-after-success": "ec-b"}[state]
     T = case.get("host") or "target"  # the spelling of the target host in URLs, pins and redirects
     TA = f"[{T}]" if ":" in T else T
+    TU = {"upper": TA.upper(), "title": TA.title()}.get(case.get("urlcase"), TA)  # as spelled in URLs from now on
     v = ssl.TLSVersion.TLSv1_2 if case["tls"] == "1.2" else ssl.TLSVersion.TLSv1_3
 
     async def scenario(loop):
@@ -110,7 +116,7 @@ def run_case(case: dict):
         if state == "pinned-during-handshake":
             target.handshake_delay = 2.0  # the peer lets the handshake wait; meanwhile the host gets pinned (see below)
         net.add(T, 1965, target)
-        good = memnet.ScriptedPeer(certs.get("rsa-a"), [("wait_request", 1.0), ("send", f"30 gemini://{TA}/landing?from=good\r\n".encode()), ("close",)])
+        good = memnet.ScriptedPeer(certs.get("rsa-a"), [("wait_request", 1.0), ("send", f"30 gemini://{TU}/landing?from=good\r\n".encode()), ("close",)])
         net.add("good", 1965, good)
         db = TOFUDatabase(dbpath)
         if state == "pinned-other-port":
@@ -203,7 +209,7 @@ def run_case(case: dict):
             c12._State.n, c12._State.kind, c12._State.count, c12._State.active = case["dbfault"], "error", 0, True
         try:
             content = bytes(i & 0xFF for i in range(case["size"]))
-            host = "good" if case["redirect"] else TA
+            host = "good" if case["redirect"] else TU
             try:
                 if case["op"] == "get":
                     r = await client.get(f"gemini://{host}/page")
@@ -259,11 +265,11 @@ def run_case(case: dict):
     line = got.split(b"\r\n", 1)[0]
     if case["op"].startswith("get"):
         exp = (f"gemini://{TA}/landing?from=good" if case["redirect"] else (f"gemini://{TA}/page" if case["op"] == "get" else f"gemini://{TA}/search?secret-query")).encode()
-        if got != exp + b"\r\n":
+        if got != exp + b"\r\n" and got != exp.replace(TA.encode(), TU.encode(), 1) + b"\r\n":
             return viol("wrong-request-sent", f"{got[:100]!r}", **info)
     else:
         content = bytes(i & 0xFF for i in range(case["size"] if case["op"] == "upload" else 0))
-        if not line.startswith(f"titan://{TA}/up.txt;size={len(content)};".encode()) or got.split(b"\r\n", 1)[1] != content:
+        if not line.startswith((f"titan://{TA}/up.txt;size={len(content)};".encode(), f"titan://{TU}/up.txt;size={len(content)};".encode())) or got.split(b"\r\n", 1)[1] != content:
             return viol("wrong-request-sent", f"{got[:100]!r}", **info)
     return ok(**info)
 
